@@ -9,6 +9,7 @@ import (
 	"fmt"
 
 	"github.com/emirpasic/gods/v2/containers"
+	"github.com/emirpasic/gods/v2/sets/treeset"
 )
 
 type baseAPI interface {
@@ -26,7 +27,8 @@ type drv struct {
 	c       baseAPI
 	raw     any  // the concrete container (for set algebra between two drivers)
 	crashed bool // a mutator / constructor / observer panicked
-	natural bool // construct with the comparator-less New() (natural order; JSON-reload containers only)
+	natural bool // constructed with the comparator-less New() (natural-order configurations only)
+	kept    *itAdapter // an iterator created at the first observation and kept across all later operations
 
 	// comparators handed to the container (nil for kinds without comparator)
 	kf, vf cmpFn
@@ -87,6 +89,7 @@ type drv struct {
 	hasX    bool // X = comparator calls of Put / Remove (Machine.v: the three trees and TreeMap)
 
 	links       func() bool   // sane bit 1
+	nodeAPI     func() bool   // sane bit 8 (trees): node-level accessors agree with the container-level ones
 	fingerprint func() string // deep state, sane bit 6 and the harness-detected failures
 	mutate      func()        // Clear + add something (applied to result containers only)
 }
@@ -94,7 +97,7 @@ type drv struct {
 // derive creates the driver of a result container (Select / Map / set algebra): same
 // configuration and comparators, its own call counter.
 func (d *drv) derive(bind func(n *drv)) *drv {
-	n := &drv{cfg: d.cfg, kf: d.kf, vf: d.vf, calls: new(int)}
+	n := &drv{cfg: d.cfg, kf: d.kf, vf: d.vf, calls: new(int), natural: d.natural}
 	bind(n)
 	return n
 }
@@ -104,6 +107,12 @@ func newDrv(cfg Config) *drv {
 	d := &drv{cfg: cfg, calls: new(int)}
 	d.kf = countingComparator(cfg.KCmp, d.calls)
 	d.vf = comparator(cfg.VCmp)
+	// natural order and no comparator-call observation (TreeSet, TreeBidiMap, BinaryHeap, PriorityQueue): every
+	// other configuration (by the universe size, so that replays agree) goes through the comparator-less New()
+	switch cfg.Kind {
+	case "TreeSet", "TreeBidiMap", "BinaryHeap", "PriorityQueue":
+		d.natural = naturalOrder(cfg) && cfg.Uni%2 == 0
+	}
 	construct(d)
 	return d
 }
@@ -111,7 +120,7 @@ func newDrv(cfg Config) *drv {
 // newLike constructs a fresh empty container of the same kind and configuration sharing the
 // comparator func values of d (TreeSet compares comparator pointers in its set algebra).
 func newLike(d *drv) *drv {
-	n := &drv{cfg: d.cfg, kf: d.kf, vf: d.vf, calls: d.calls}
+	n := &drv{cfg: d.cfg, kf: d.kf, vf: d.vf, calls: d.calls, natural: d.natural}
 	construct(n)
 	return n
 }
@@ -139,6 +148,20 @@ func construct(d *drv) {
 	default:
 		panic("harness: unknown kind " + d.cfg.Kind)
 	}
+}
+
+// newLikeWith: the operand of a set-algebra call holding vs.  When d itself came from the comparator-less
+// constructor the operand comes from the variadic one (treeset.New(vs...)): both must install the same
+// comparator, or the algebra of two natural-order sets answers the empty set.
+func newLikeWith(d *drv, vs []int) *drv {
+	if d.natural && d.cfg.Kind == "TreeSet" {
+		n := &drv{cfg: d.cfg, kf: d.kf, vf: d.vf, calls: d.calls, natural: true}
+		bindTreeSet(n, treeset.New(vs...))
+		return n
+	}
+	n := newLike(d)
+	n.add(vs...)
+	return n
 }
 
 // ---------- kind classification (mirrors Machine.v) ----------
